@@ -21,7 +21,7 @@ def kind_of(o):
 
 
 class ObjInfo(object):
-    __slots__ = ('obj', 'kind', 'snap', 'frozen', 'rlocks', 'xlock', 'const', 'minor', 'born')
+    __slots__ = ('obj', 'kind', 'snap', 'frozen', 'rlocks', 'xlock', 'const', 'minor', 'born', 'recipe', 'copyrel')
 
     def __init__(self, obj, kind, born):
         self.obj, self.kind = obj, kind
@@ -32,6 +32,8 @@ class ObjInfo(object):
         self.const = False
         self.minor = None
         self.born = born
+        self.recipe = None      # [(entry name, cloned call)]: how to rebuild an object that has no repr
+        self.copyrel = False    # the object is a copy, or the source of a copy
 
 
 class Pool(object):
@@ -39,7 +41,6 @@ class Pool(object):
         self.handles = {}   # hid -> obj
         self.owner = {}     # hid -> task
         self.info = {}      # id(obj) -> ObjInfo
-        self.copyrel = set()  # ids of objects that are a copy or the source of a copy
         self._rot = 0
         for hid, (mod, attr) in CONST_HANDLES.items():
             o = getattr(ops.MODS[mod], attr, None)
@@ -62,7 +63,13 @@ class Pool(object):
         return False
 
     def infoof(self, obj):
+        # (self.info holds a strong reference to every object it describes, so an id() found here
+        # always belongs to that very object: nothing else in the simulator may key state on id())
         return self.info.get(id(obj))
+
+    def is_copyrel(self, obj):
+        inf = self.info.get(id(obj))
+        return bool(inf is not None and inf.copyrel)
 
     def _iter(self, kind):
         seen = set()
